@@ -1,5 +1,5 @@
 //! unit: u02
-//! properties: C02 C08
+//! properties: C02 C08 C04
 //! note: forward admission arithmetic (fee and CLTV) and the timing lemma over the extracted constants
 //! trusted: R15 (statement slicing): should_broadcast_holder_commitment_txn scans hash maps through a function-local macro_rules!; the unit extracts the go-on-chain test of scan_commitment! verbatim (both inequalities) as a function of (htlc, direction, height, preimage known); the scan itself is dropped and not claimed
 //! plemma: C08 lemma_forward_race / lemma_on_chain_heights_close_the_race: with the extracted constants and the extracted on-chain test, a silent or last-moment downstream peer never costs the upstream HTLC
@@ -229,7 +229,7 @@ impl BlindedHopFeatures {
 //@ret r
 //@requires
     current_height <= 0x7fff_ffff,
-//@ensures P C08 accepted-final-hop-HTLC-leaves-more-than-the-fail-back-buffer-before-expiry
+//@ensures P C08,C04 accepted-final-hop-HTLC-leaves-more-than-the-fail-back-buffer-before-expiry-and-carries-at-least-the-onion-amount
     r is Ok ==> cltv_expiry as int > current_height + HTLC_FAIL_BACK_BUFFER + 1 && onion_cltv_expiry <= cltv_expiry,
     // hence the claim deadline advertised in PaymentClaimable (expiry - HTLC_FAIL_BACK_BUFFER) is still more than one block away
     r is Ok ==> cltv_expiry as int - HTLC_FAIL_BACK_BUFFER as int > current_height + 1,
@@ -239,6 +239,10 @@ impl BlindedHopFeatures {
     cltv_expiry <= current_height + HTLC_FAIL_BACK_BUFFER + 1
 //@with
     cltv_expiry <= current_height + 1
+//@mutant underpaying_final_htlc_accepted
+    (!allow_underpay && onion_amt_msat > amt_msat)
+//@with
+    (!allow_underpay && onion_amt_msat > amt_msat.saturating_mul(2))
 //@end
 
 // ---- when the monitor goes on chain for an HTLC (R15 slice of should_broadcast_holder_commitment_txn's scan_commitment! test) ----
